@@ -50,6 +50,16 @@ impl HElem for String {
         "xé中😀".chars().cycle().skip((x % 4) as usize).take((x % 6) as usize).collect()
     }
 }
+impl HElem for crate::types::Unit1 {
+    fn make(_: u64) -> Self {
+        crate::types::Unit1::Only
+    }
+}
+impl HElem for crate::types::TrZ {
+    fn make(x: u64) -> Self {
+        crate::types::TrZ(x as u32, crate::types::Unit1::Only)
+    }
+}
 impl HElem for EnumData {
     fn make(i: u64) -> Self {
         match i % 4 {
@@ -554,7 +564,7 @@ where
     let len = model.len();
     let max_off = len.min(70);
     for o in 0..=max_off {
-        for l in [0usize, 1, 7, 8, 9, 15, 16, 17, 31, 33, 63, 64, 65, len - o] {
+        for l in [0usize, 1, 2, 3, 4, 5, 6, 7, 8, 9, 12, 15, 16, 17, 24, 31, 32, 33, 48, 63, 64, 65, len - o] {
             if o + l > len {
                 continue;
             }
@@ -650,7 +660,7 @@ const KINDS: [&str; 16] = [
     "VecDeque<u8>", "VecDeque<u32>", "VecDeque<u128>", "VecDeque<String>", "VecDeque<EnumData>", "VecDeque<i16>", "VecDeque<f64>", "Vec<u32>", "Vec<String>", "String", "BTreeMap", "LinkedList", "BitVec<u8,Lsb0>", "BitVec<u8,Msb0>",
     "BitVec<u16,Lsb0>", "BitVec<u32,Msb0>",
 ];
-const KINDS2: [&str; 1] = ["BitVec<u64,Lsb0>"];
+const KINDS2: [&str; 4] = ["BitVec<u64,Lsb0>", "VecDeque<Unit1>", "VecDeque<TrZ>", "Vec<Unit1>"];
 const OPS: [&str; 16] = ["push_back", "push_front", "pop_back", "pop_front", "insert", "remove", "rotate_left", "rotate_right", "make_contiguous", "reserve", "shrink_to_fit", "truncate", "drain", "extend", "clear", "cycle"];
 
 impl Scenario for History {
@@ -664,14 +674,14 @@ impl Scenario for History {
         "exploration"
     }
     fn rule(&self) -> &'static str {
-        "history simulation without faults: per case one container kind (VecDeque of u8/u32/u128/i16/f64/String/derived enum, Vec, String, BTreeMap+BTreeSet, LinkedList, BitVec over u8/u16/u32/u64 x Lsb0/Msb0) and 1..60 seeded operations (push/pop both ends, insert, remove, rotate, make_contiguous, reserve, shrink_to_fit, truncate, drain, extend, clear, push_back/pop_front cycling, with_capacity starts; split_off/append/retain for maps, sets, lists and bit vectors) mirrored on a naive model; after EVERY operation encode(), encode_to(custom Output), using_encoded and encoded_size must equal those of the same logical content rebuilt in the simplest way, twice in a row; at the end the holders &T, &&T, &mut T, Box, Rc (extra strong refs), Arc (weak ref), Cow::Borrowed/Owned are compared, and for bit sequences every sub-slice offset 0..=70 x 14 lengths as BitSlice, to_bitvec(), from_bitslice and BitBox; non-trivial = every history; distinct = container kind x operation-name sequence x (wrapped / flat)"
+        "history simulation without faults: per case one container kind (VecDeque of u8/u32/u128/i16/f64/String/derived enum, Vec, String, BTreeMap+BTreeSet, LinkedList, BitVec over u8/u16/u32/u64 x Lsb0/Msb0) and 1..60 seeded operations (push/pop both ends, insert, remove, rotate, make_contiguous, reserve, shrink_to_fit, truncate, drain, extend, clear, push_back/pop_front cycling, with_capacity starts; split_off/append/retain for maps, sets, lists and bit vectors) mirrored on a naive model; after EVERY operation encode(), encode_to(custom Output), using_encoded and encoded_size must equal those of the same logical content rebuilt in the simplest way, twice in a row; at the end the holders &T, &&T, &mut T, Box, Rc (extra strong refs), Arc (weak ref), Cow::Borrowed/Owned are compared, and for bit sequences every sub-slice offset 0..=70 x 23 lengths as BitSlice, to_bitvec(), from_bitslice and BitBox; non-trivial = every history; distinct = container kind x operation-name sequence x (wrapped / flat)"
     }
     fn cases(&self, tier: Tier) -> u64 {
         tiered(tier, 400_000, 20_000_000)
     }
     fn gen(&self, seed: u64, idx: u64, _tier: Tier) -> Plan {
         let mut rng = Rng::for_case(seed, "history", idx);
-        let kind = if rng.chance(1, 17) { KINDS2[0] } else { *rng.pick(&KINDS) };
+        let kind = if rng.chance(1, 5) { *rng.pick(&KINDS2) } else { *rng.pick(&KINDS) };
         let mut p = Plan::new("history", "");
         p.subject = kind.to_string();
         p.set("fix_cap", *rng.pick(&[0i64, 0, 1, 3, 8, 16, 17, 64]));
@@ -693,6 +703,9 @@ impl Scenario for History {
             "VecDeque<f64>" => deque_history::<f64>(plan, st, "f64"),
             "VecDeque<String>" => deque_history::<String>(plan, st, "String"),
             "VecDeque<EnumData>" => deque_history::<EnumData>(plan, st, "EnumData"),
+            "VecDeque<Unit1>" => deque_history::<crate::types::Unit1>(plan, st, "Unit1"),
+            "VecDeque<TrZ>" => deque_history::<crate::types::TrZ>(plan, st, "TrZ"),
+            "Vec<Unit1>" => vec_history::<crate::types::Unit1>(plan, st, "Unit1"),
             "Vec<u32>" => vec_history::<u32>(plan, st, "u32"),
             "Vec<String>" => vec_history::<String>(plan, st, "String"),
             "String" => string_history(plan, st),
